@@ -929,7 +929,14 @@ pub fn run_c15(a: &Args, rep: &mut Report) {
         if par_progs.len() < 6000 && k % 11 == 0 && bytes.len() <= 8 * 256 {
             par_progs.push(bytes.clone());
         }
-        let r = sys::catch(|| disasm(&bytes));
+        // three programs in eight are handed over at an address that is not 8-byte aligned (a
+        // sub-slice starting 1..7 bytes into an allocation): where the bytes live is not an input
+        let shift = if k % 8 < 3 { 1 + (k / 8 % 7) as usize } else { 0 };
+        let shifted: Vec<u8> = if shift > 0 { let mut v = vec![0xEEu8; shift]; v.extend_from_slice(&bytes); v } else { Vec::new() };
+        if shift > 0 {
+            rep.count("programs_at_unaligned_addresses");
+        }
+        let r = sys::catch(|| if shift > 0 { disasm(&shifted[shift..]) } else { disasm(&bytes) });
         let entries = match r {
             Err(pmsg) => {
                 let first = mnemonic(p[0].opc, p[0].src).unwrap_or_default();
@@ -1023,7 +1030,9 @@ pub fn run_c16(a: &Args, rep: &mut Report) {
             par_progs.push(bytes.clone());
         }
         let r = sys::catch(|| {
-            let entries = disasm(&bytes);
+            // (one program in four from an unaligned sub-slice)
+            let sh = (fnv(&bytes) % 4) as usize;
+            let entries = if sh == 0 { disasm(&bytes) } else { let mut v = vec![0xEEu8; sh]; v.extend_from_slice(&bytes); disasm(&v[sh..]) };
             let text = entries.iter().map(|e| e.desc.clone()).collect::<Vec<_>>().join("\n");
             let out = assemble(&text);
             (text, out)
